@@ -164,6 +164,14 @@ impl ShardSplitter {
     /// the same `old_shard` to continue from where it left off.
     pub async fn execute_split_with_monitoring(&self, shard: &ShardMetadata) -> Result<()> {
         let shard_id = &shard.shard_id;
+
+        // An interrupted split of this shard is continued, not started a second time:
+        // its progress file and the chunks it already back-filled name the shard ids
+        // drawn by the first attempt, and a fresh start would overwrite both.
+        if self.resume_split(shard_id).await? {
+            return Ok(());
+        }
+
         info!("Starting 5-phase split for shard: {}", shard_id);
 
         // Phase 1: Preparation
